@@ -28,6 +28,7 @@ struct Gen : std::streambuf, verif::Observer {
 	int scalarOrd = 0;
 	std::string servedBytes;
 	std::vector<uint32_t> codes; // (kind, size, is-reference, is-string) of every transfer the reader asked for
+	std::vector<uint32_t> sizes; // their true sizes
 	std::vector<int> scalarKinds;
 	// layout signature: the set of adjacent pairs of transfers (a longer array repeats pairs, a new section adds some)
 	uint64_t signature() const {
@@ -35,6 +36,10 @@ struct Gen : std::streambuf, verif::Observer {
 		for (size_t i = 0; i + 1 < codes.size(); i++) pairs.insert(uint64_t(codes[i]) * 100003ull + codes[i + 1]);
 		uint64_t h = 1469598103934665603ull;
 		for (auto p : pairs) h = (h ^ p) * 1099511628211ull;
+		// ... and how often each kind of transfer occurs, up to four (one more vector among others like it is a new section too)
+		std::map<uint32_t, unsigned> count;
+		for (auto c : codes) count[c]++;
+		for (auto& c : count) h = (h ^ (uint64_t(c.first) * 8 + std::min(c.second, 4u))) * 1099511628211ull;
 		return h ^ (codes.empty() ? 0 : codes[0]);
 	}
 	std::unordered_set<const void*> live;
@@ -74,6 +79,7 @@ struct Gen : std::streambuf, verif::Observer {
 		pendingRef = false;
 		uint64_t v = 0;
 		bool scalar = true;
+		sizes.push_back(uint32_t(n));
 		codes.push_back(uint32_t((k + 2) * 64 + (n == 1 ? 1 : n == 2 ? 2 : n == 4 ? 3 : n == 8 ? 4 : 5) * 4 + (isRef ? 1 : 0) + (isStr ? 2 : 0)));
 		if (isStr && n == 4) {
 			pendingStr = false;
@@ -206,6 +212,12 @@ static bool synthCore(NifFile& nif, const std::string& type, const std::string& 
 		info->readRefs = gen.readRefs;
 		info->readStrs = gen.readStrs;
 		info->tape = gen.signature();
+		info->ncodes = gen.codes.size();
+		{
+			uint64_t h = 1469598103934665603ull;
+			for (size_t i = 0; i < gen.codes.size(); i++) h = (h ^ (uint64_t(gen.codes[i]) << 24 | std::min<uint32_t>(gen.sizes[i], 0xffffff))) * 1099511628211ull;
+			info->exact = h;
+		}
 		info->served = gen.servedBytes;
 		info->scalarKinds = gen.scalarKinds;
 	}
